@@ -59,7 +59,7 @@ def shards(tier, seed):
 
 
 def dims_for(t, nslots, tier):
-    return list(itertools.product(M.DIMS7, repeat=nslots))
+    return list(itertools.product(M.DIMS10 if tier == 'thorough' and nslots <= 2 else M.DIMS7, repeat=nslots))
 
 
 def run_entry(name, res, tier):
